@@ -94,7 +94,7 @@ func (r *runner) execEnv(v *variant, timeout time.Duration, extraEnv []string, a
 	var raceBase string
 	if strings.Contains(v.Name, "race") {
 		raceBase = r.tmpName("race")
-		env = append(env, "GORACE=log_path="+raceBase+" halt_on_error=0 history_size=3 atexit_sleep_ms=0")
+		env = append(env, "GORACE=log_path="+raceBase+" halt_on_error=0 history_size=5 atexit_sleep_ms=0")
 	}
 	cmd.Env = env
 	cmd.Dir = r.b.scratch
